@@ -41,6 +41,8 @@ func runC13(c *an.Ctx) {
 	r135(c)
 	r136(c)
 	r137(c)
+	r138(c)
+	c.Min("R13.8", 1)
 	c.Min("R13.1", 3)
 	c.Min("R13.2", 5)
 	c.Min("R13.3", 8)
@@ -592,4 +594,44 @@ func rootLoad(v ssa.Value) ssa.Value {
 		break
 	}
 	return v
+}
+
+// r138: a unary Invoke hands header and trailer metadata to the call options whatever the outcome of
+// the call (a real connection delivers trailers with an error status too).
+func r138(c *an.Ctx) {
+	const rule = "R13.8"
+	fn := mustFunc(c, rule, wrapPkg, "wrapper", "Invoke")
+	if fn == nil {
+		return
+	}
+	var recv ssa.Instruction
+	an.Instrs(fn, func(in ssa.Instruction) {
+		if call, ok := in.(*ssa.Call); ok && call.Call.IsInvoke() && call.Call.Method.Name() == "RecvMsg" {
+			recv = in
+		}
+	})
+	collects := map[ssa.Instruction]bool{}
+	for _, cl := range an.CallsTo(fn, an.ModulePath+"/pkg/wrap.collectMetadata") {
+		collects[cl] = true
+	}
+	if recv == nil || len(collects) == 0 {
+		c.Bad(rule, "(*pkg/wrap.wrapper).Invoke|metadata is collected after the response, error or not", fn.Pos(), "Invoke does not receive the reply and then collect header/trailer metadata")
+		return
+	}
+	t, path := an.PathQuery{Target: func(in ssa.Instruction) bool { _, ok := in.(*ssa.Return); return ok }, Avoid: func(in ssa.Instruction) bool { return collects[in] }}.From(fn, recv)
+	c.Check(t == nil, rule, "(*pkg/wrap.wrapper).Invoke|metadata is collected after the response, error or not", recv.Pos(), "every path from RecvMsg to a return passes collectMetadata",
+		"a path returns after RecvMsg without collecting metadata: when the handler fails, the grpc.Header/grpc.Trailer call options stay empty although a real connection delivers the trailer with the error status", an.BlockPath(c.Prog, path)...)
+	// the call's own error wins over a metadata error
+	okErr := false
+	for _, r := range an.Returns(fn) {
+		if !an.Reaches(recv, r) {
+			continue
+		}
+		for _, v := range an.ValuesAt(r.Results[0]) {
+			if v == ssa.Value(recv.(*ssa.Call)) {
+				okErr = true
+			}
+		}
+	}
+	c.Check(okErr, rule, "(*pkg/wrap.wrapper).Invoke|the handler's status is what the caller receives", fn.Pos(), "", "Invoke does not return RecvMsg's error")
 }
